@@ -69,6 +69,44 @@ theorem C06_argv_leftover (ld : String → Val) (fs : Fields) (done : List (Stri
       exact ih (fun o' ho' => hdone o' (List.mem_cons_of_mem _ ho'))
   rw [this]
 
+/-! ## branch keys: the "." boundary -/
+
+/-- **the branch-key rule reads the "." boundary.**  A key is a branch of defined keys exactly when some destination is
+    the key, then a ".", then anything — for all destination lists and keys, as character strings. -/
+theorem C06_branch_key_iff (dests : List (List Char)) (key : List Char) :
+    isBranchKeyL dests key = true ↔ ∃ d ∈ dests, ∃ rest, d = key ++ '.' :: rest := by
+  unfold isBranchKeyL
+  simp only [List.any_eq_true, List.isPrefixOf_iff_prefix]
+  constructor
+  · rintro ⟨d, hd, t, ht⟩
+    exact ⟨d, hd, t, by rw [← ht]; simp⟩
+  · rintro ⟨d, hd, rest, rfl⟩
+    exact ⟨_, hd, rest, by simp⟩
+
+/-- a key that is a proper string prefix of a destination WITHOUT the "." boundary (a truncated typo: `epoch` for
+    `epochs`, `max` for `max_steps`) is not a branch key of it -/
+theorem C06_branch_key_boundary (key rest : List Char) (c : Char) (hc : c ≠ '.') :
+    isBranchKeyL [key ++ c :: rest] key = false := by
+  cases h : isBranchKeyL [key ++ c :: rest] key with
+  | false => rfl
+  | true =>
+    obtain ⟨d, hd, r, hr⟩ := (C06_branch_key_iff _ _).mp h
+    simp only [List.mem_singleton] at hd
+    subst hd
+    have := List.append_cancel_left hr
+    simp only [List.cons.injEq] at this
+    exact absurd this.1 hc
+
+/-- nor is a destination a branch key of itself, nor an extension of a destination (`epochs2`) of anything shorter -/
+theorem C06_branch_key_examples :
+    isBranchKeyL ["epochs".toList, "trainer.max_steps".toList] "epoch".toList = false
+    ∧ isBranchKeyL ["epochs".toList, "trainer.max_steps".toList] "epochs".toList = false
+    ∧ isBranchKeyL ["epochs".toList, "trainer.max_steps".toList] "epochs2".toList = false
+    ∧ isBranchKeyL ["epochs".toList, "trainer.max_steps".toList] "train".toList = false
+    ∧ isBranchKeyL ["epochs".toList, "trainer.max_steps".toList] "trainer.max".toList = false
+    ∧ isBranchKeyL ["epochs".toList, "trainer.max_steps".toList] "trainer".toList = true := by
+  decide
+
 /-! ## unknown keys -/
 
 /-- **C06_no_unknown (partial).**  For every parser spec tree, every loader and every accepted configuration:
